@@ -1,0 +1,360 @@
+//! verification shims, compiled only with `--cfg may_verif`
+//!
+//! * `atomic::*` : drop-in twins of the std atomics that report every operation
+//!   (with the construction site of the object) to the installed hooks
+//! * `Queue`, `SpscQueue`, `SegQueue` : wrappers that report one abstract event per
+//!   queue operation and keep the queue's own atomic steps quiet
+//! * actor attribution for code that runs in coroutine context
+pub use may_queue::verif::{
+    actor_depth, current_actor, hooks, install, note, now, op, op_cas, ord_code, pop_actor,
+    push_actor, quiet, suppressed, Ev, Hooks,
+};
+use std::panic::Location;
+
+pub mod atomic {
+    use may_queue::verif::{op, op_cas, ord_code};
+    use std::panic::Location;
+    pub use std::sync::atomic::{fence, Ordering};
+
+    macro_rules! int_atomic {
+        ($name:ident, $std:ty, $t:ty) => {
+            pub struct $name {
+                v: $std,
+                site: &'static Location<'static>,
+            }
+            impl std::fmt::Debug for $name {
+                fn fmt(&self, f: &mut std::fmt::Formatter) -> std::fmt::Result {
+                    self.v.fmt(f)
+                }
+            }
+            impl From<$t> for $name {
+                #[track_caller]
+                fn from(v: $t) -> Self {
+                    Self::new(v)
+                }
+            }
+            impl $name {
+                #[track_caller]
+                pub const fn new(v: $t) -> Self {
+                    $name {
+                        v: <$std>::new(v),
+                        site: Location::caller(),
+                    }
+                }
+                #[inline]
+                fn a(&self) -> usize {
+                    self as *const _ as usize
+                }
+                pub fn get_mut(&mut self) -> &mut $t {
+                    self.v.get_mut()
+                }
+                pub fn into_inner(self) -> $t {
+                    self.v.into_inner()
+                }
+                pub fn load(&self, o: Ordering) -> $t {
+                    op(self.site, self.a(), "load", 0, 0, ord_code(o), || {
+                        self.v.load(o) as u64
+                    }) as $t
+                }
+                pub fn store(&self, x: $t, o: Ordering) {
+                    op(self.site, self.a(), "store", x as u64, 0, ord_code(o), || {
+                        self.v.store(x, o);
+                        0
+                    });
+                }
+                pub fn swap(&self, x: $t, o: Ordering) -> $t {
+                    op(self.site, self.a(), "swap", x as u64, 0, ord_code(o), || {
+                        self.v.swap(x, o) as u64
+                    }) as $t
+                }
+                pub fn fetch_add(&self, x: $t, o: Ordering) -> $t {
+                    op(self.site, self.a(), "fetch_add", x as u64, 0, ord_code(o), || {
+                        self.v.fetch_add(x, o) as u64
+                    }) as $t
+                }
+                pub fn fetch_sub(&self, x: $t, o: Ordering) -> $t {
+                    op(self.site, self.a(), "fetch_sub", x as u64, 0, ord_code(o), || {
+                        self.v.fetch_sub(x, o) as u64
+                    }) as $t
+                }
+                pub fn fetch_or(&self, x: $t, o: Ordering) -> $t {
+                    op(self.site, self.a(), "fetch_or", x as u64, 0, ord_code(o), || {
+                        self.v.fetch_or(x, o) as u64
+                    }) as $t
+                }
+                pub fn fetch_and(&self, x: $t, o: Ordering) -> $t {
+                    op(self.site, self.a(), "fetch_and", x as u64, 0, ord_code(o), || {
+                        self.v.fetch_and(x, o) as u64
+                    }) as $t
+                }
+                pub fn compare_exchange(
+                    &self,
+                    c: $t,
+                    n: $t,
+                    s: Ordering,
+                    f: Ordering,
+                ) -> Result<$t, $t> {
+                    op_cas(self.site, self.a(), "cas", c as u64, n as u64, ord_code(s), || {
+                        self.v
+                            .compare_exchange(c, n, s, f)
+                            .map(|x| x as usize)
+                            .map_err(|x| x as usize)
+                    })
+                    .map(|x| x as $t)
+                    .map_err(|x| x as $t)
+                }
+                // executed as a strong compare-exchange (a legal refinement)
+                pub fn compare_exchange_weak(
+                    &self,
+                    c: $t,
+                    n: $t,
+                    s: Ordering,
+                    f: Ordering,
+                ) -> Result<$t, $t> {
+                    self.compare_exchange(c, n, s, f)
+                }
+            }
+        };
+    }
+    int_atomic!(AtomicUsize, std::sync::atomic::AtomicUsize, usize);
+    int_atomic!(AtomicIsize, std::sync::atomic::AtomicIsize, isize);
+
+    #[derive(Debug)]
+    pub struct AtomicBool {
+        v: std::sync::atomic::AtomicBool,
+        site: &'static Location<'static>,
+    }
+    impl AtomicBool {
+        #[track_caller]
+        pub const fn new(v: bool) -> Self {
+            AtomicBool {
+                v: std::sync::atomic::AtomicBool::new(v),
+                site: Location::caller(),
+            }
+        }
+        #[inline]
+        fn a(&self) -> usize {
+            self as *const _ as usize
+        }
+        pub fn load(&self, o: Ordering) -> bool {
+            op(self.site, self.a(), "load", 0, 0, ord_code(o), || {
+                self.v.load(o) as u64
+            }) != 0
+        }
+        pub fn store(&self, x: bool, o: Ordering) {
+            op(self.site, self.a(), "store", x as u64, 0, ord_code(o), || {
+                self.v.store(x, o);
+                0
+            });
+        }
+        pub fn swap(&self, x: bool, o: Ordering) -> bool {
+            op(self.site, self.a(), "swap", x as u64, 0, ord_code(o), || {
+                self.v.swap(x, o) as u64
+            }) != 0
+        }
+    }
+}
+
+/// identity of a queued item: the machine word for pointer-sized items
+/// (`Arc<_>` pointers, `usize` payloads, boxed coroutines), 0 otherwise
+#[inline]
+pub fn item_id<T>(t: &T) -> u64 {
+    if std::mem::size_of::<T>() == std::mem::size_of::<usize>() {
+        unsafe { std::mem::transmute_copy::<T, usize>(t) as u64 }
+    } else {
+        0
+    }
+}
+
+const NONE: u64 = u64::MAX;
+
+/// abstract FIFO wrapper of `may_queue::mpsc::Queue`: one event per operation
+pub struct Queue<T> {
+    q: may_queue::mpsc::Queue<T>,
+    site: &'static Location<'static>,
+}
+impl<T> Queue<T> {
+    #[track_caller]
+    #[allow(clippy::new_without_default)]
+    pub fn new() -> Self {
+        Queue {
+            q: may_queue::mpsc::Queue::new(),
+            site: Location::caller(),
+        }
+    }
+    #[inline]
+    fn a(&self) -> usize {
+        self as *const _ as usize
+    }
+    pub fn push(&self, t: T) {
+        let id = item_id(&t);
+        op(self.site, self.a(), "q.push", id, 0, 0, || {
+            quiet(|| self.q.push(t));
+            0
+        });
+    }
+    pub fn pop(&self) -> Option<T> {
+        let mut r = None;
+        op(self.site, self.a(), "q.pop", 0, 0, 0, || {
+            r = quiet(|| self.q.pop());
+            r.as_ref().map(item_id).unwrap_or(NONE)
+        });
+        r
+    }
+    pub fn is_empty(&self) -> bool {
+        op(self.site, self.a(), "q.is_empty", 0, 0, 0, || {
+            quiet(|| self.q.is_empty()) as u64
+        }) != 0
+    }
+    pub fn len(&self) -> usize {
+        op(self.site, self.a(), "q.len", 0, 0, 0, || {
+            quiet(|| self.q.len()) as u64
+        }) as usize
+    }
+    /// # Safety
+    /// same contract as the wrapped queue
+    pub unsafe fn peek(&self) -> Option<&T> {
+        let mut r = None;
+        op(self.site, self.a(), "q.peek", 0, 0, 0, || {
+            r = quiet(|| self.q.peek());
+            r.map(item_id).unwrap_or(NONE)
+        });
+        r
+    }
+}
+
+/// abstract FIFO wrapper of `may_queue::spsc::Queue`
+pub struct SpscQueue<T> {
+    q: may_queue::spsc::Queue<T>,
+    site: &'static Location<'static>,
+}
+impl<T> SpscQueue<T> {
+    #[track_caller]
+    #[allow(clippy::new_without_default)]
+    pub fn new() -> Self {
+        SpscQueue {
+            q: may_queue::spsc::Queue::new(),
+            site: Location::caller(),
+        }
+    }
+    #[inline]
+    fn a(&self) -> usize {
+        self as *const _ as usize
+    }
+    pub fn push(&self, t: T) {
+        let id = item_id(&t);
+        op(self.site, self.a(), "q.push", id, 0, 0, || {
+            quiet(|| self.q.push(t));
+            0
+        });
+    }
+    pub fn pop(&self) -> Option<T> {
+        let mut r = None;
+        op(self.site, self.a(), "q.pop", 0, 0, 0, || {
+            r = quiet(|| self.q.pop());
+            r.as_ref().map(item_id).unwrap_or(NONE)
+        });
+        r
+    }
+    pub fn is_empty(&self) -> bool {
+        op(self.site, self.a(), "q.is_empty", 0, 0, 0, || {
+            quiet(|| self.q.is_empty()) as u64
+        }) != 0
+    }
+}
+
+/// abstract FIFO wrapper of `crossbeam::queue::SegQueue`
+pub struct SegQueue<T> {
+    q: crossbeam::queue::SegQueue<T>,
+    site: &'static Location<'static>,
+}
+impl<T> SegQueue<T> {
+    #[track_caller]
+    #[allow(clippy::new_without_default)]
+    pub fn new() -> Self {
+        SegQueue {
+            q: crossbeam::queue::SegQueue::new(),
+            site: Location::caller(),
+        }
+    }
+    #[inline]
+    fn a(&self) -> usize {
+        self as *const _ as usize
+    }
+    pub fn push(&self, t: T) {
+        let id = item_id(&t);
+        op(self.site, self.a(), "q.push", id, 0, 0, || {
+            self.q.push(t);
+            0
+        });
+    }
+    pub fn pop(&self) -> Option<T> {
+        let mut r = None;
+        op(self.site, self.a(), "q.pop", 0, 0, 0, || {
+            r = self.q.pop();
+            r.as_ref().map(item_id).unwrap_or(NONE)
+        });
+        r
+    }
+    pub fn is_empty(&self) -> bool {
+        op(self.site, self.a(), "q.is_empty", 0, 0, 0, || {
+            self.q.is_empty() as u64
+        }) != 0
+    }
+    pub fn len(&self) -> usize {
+        op(self.site, self.a(), "q.len", 0, 0, 0, || self.q.len() as u64) as usize
+    }
+}
+
+/// a heap object that groups several hooked fields was created at `[ptr, ptr+size)`
+pub fn born<T>(kind: &'static str, p: *const T) {
+    if hooks().is_some() {
+        note(
+            "born",
+            &format!("{} {} {}", kind, p as usize, std::mem::size_of::<T>()),
+        );
+    }
+}
+
+// ---- actor attribution for coroutine context (live mode)
+
+/// `name|id` of a coroutine: id is the address of its handle
+pub fn co_name(co: &crate::coroutine_impl::CoroutineImpl) -> String {
+    crate::coroutine_impl::verif_co_name(co)
+}
+/// a worker (or any thread) starts resuming this coroutine
+pub fn resume_enter(name: &str) {
+    if hooks().is_some() {
+        note("resume_enter", name);
+        push_actor(name.to_string());
+    }
+}
+/// the coroutine switched off its stack and left an event source to subscribe to:
+/// what follows runs on its behalf on this thread ("kernel tail")
+pub fn subscribe_enter(name: &str) {
+    if hooks().is_some() {
+        pop_actor();
+        push_actor(format!("k:{name}"));
+        note("subscribe_enter", name);
+    }
+}
+pub fn subscribe_leave(name: &str) {
+    if hooks().is_some() {
+        note("subscribe_leave", name);
+        pop_actor();
+    }
+}
+/// the coroutine ended by panic (or cancel): the runtime finishes it on this thread
+pub fn finish_enter(name: &str) {
+    if hooks().is_some() {
+        pop_actor();
+        push_actor(format!("k:{name}"));
+        note("finish_enter", name);
+    }
+}
+pub fn finish_leave(name: &str) {
+    if hooks().is_some() {
+        note("finish_leave", name);
+        pop_actor();
+    }
+}
